@@ -52,6 +52,8 @@ def fields_used(body, sv):
 
 
 def run(ck, facts, tier):
+    from shared import identity as _idn
+    _idn.identity_predicates(ck, facts, "C17.TRIVIAL-IS-IDENTITY")
     from shared import state
     state.any_future_answer(ck, facts, "C17.ANY-FUTURE")
     variants = facts.variants("chalk_ir::TyKind")
@@ -141,6 +143,7 @@ def run(ck, facts, tier):
                     ck.ok(R, inst, "same constructor from aggregated components")
     ck.floor(R, "AntiUnifier-pairs", n, 529)
     n = 0
+    repeated_var = {}
     for ka in variants:
         for kb in variants:
             if ka == kb or ka == "InferenceVar" or kb == "InferenceVar":
@@ -150,6 +153,10 @@ def run(ck, facts, tier):
             arm = mm["arms"][arms[0][0]]
             inst = "MayInvalidate:(new=%s,current=%s)" % (ka, kb)
             want = (kb != "BoundVar")
+            if kb == "BoundVar":
+                # a variable of the current guidance: decided by REPEATED-VARIABLE below (a constant `true` would be sound as well)
+                repeated_var.setdefault("tys", []).append((ka, arm))
+                continue
             if is_lit_bool(arm["body"], want) and arms[0][1] == "yes":
                 ck.ok(R, inst, str(want).lower())
             else:
@@ -226,8 +233,8 @@ def run(ck, facts, tier):
                     m_true = is_lit_bool(mbody, True)
                     inst = "consts:(new=%s,current=%s)" % (a, b)
                     if b == "BoundVar":
-                        okc = m_false
-                        why = "current guidance is a variable: nothing invalidates it"
+                        repeated_var.setdefault("consts", []).append((a, mcm[0]["arms"][ma[0][0]]))
+                        continue
                     elif a_always_fresh:
                         okc = m_true
                         why = "anti-unifier always generalizes here"
@@ -245,6 +252,26 @@ def run(ck, facts, tier):
                 ck.violation(R, "consts:type-compared", mc.where(), "the const's type must be compared")
         else:
             ck.violation(R, "consts:matches", mc.where(), "expected one (ConstValue, ConstValue) match in each")
+    R_rv = "C17.REPEATED-VARIABLE"
+    ck.rule(R_rv, "K1: where the current guidance has a variable, MayInvalidate may answer `cannot invalidate` only for the FIRST "
+                  "occurrence of that variable, or when the new answer has the same value at every occurrence: the guidance "
+                  "`[?0 := ^0.0, ?1 := ^0.0]` says the two unknowns are equal and the answer `[A, B]` invalidates it (the anti-unifier "
+                  "would produce two distinct variables).  The arms for (new = anything, current = BoundVar) in aggregate_tys and "
+                  "aggregate_consts therefore depend on the variable and on state kept across the arguments of one may_invalidate "
+                  "call; a constant `false` is wrong, a constant `true` is merely conservative")
+    for what, fn_body in (("tys", mi), ("consts", mc)):
+        arms_ = repeated_var.get(what, [])
+        if not arms_ or fn_body is None:
+            ck.violation(R_rv, "missing-anchor:%s" % what, "", "no arm for (new, current = BoundVar) found in MayInvalidate::aggregate_%s" % what)
+            continue
+        const_false = [(ka_, arm_) for ka_, arm_ in arms_ if is_lit_bool(arm_["body"], False)]
+        inst = "MayInvalidate::aggregate_%s:(new=any,current=BoundVar)" % what
+        if const_false:
+            ck.violation(R_rv, inst, fn_body.where(const_false[0][1]["ln"]),
+                         "answers a constant `false`: a variable that occurs twice in the guidance can be invalidated by an answer with "
+                         "different values in the two places, and the aggregation loop stops early with guidance that excludes a solution")
+        else:
+            ck.ok(R_rv, inst, "not a constant false")
     ns = need_body(ck, facts, R, MI + "::aggregate_name_and_substs")
     if ns:
         th = facts.thir(MI + "::aggregate_name_and_substs")
@@ -261,6 +288,9 @@ def run(ck, facts, tier):
                "tests say - the result is a disjunction of the component results.  A conjunction, a negated test or an early "
                "`return false` would let make_solution call guidance final that a pending answer still changes")
     from kit import may_differ_disjunctive, user_block
+    # every bool-valued method of MayInvalidate is a component test (whatever it is called)
+    mi_methods = {k_.split("::")[-1] for k_, b_ in facts.bodies("chalk_engine").items()
+                  if k_.startswith(MI + "::") and "{" not in k_ and b_.d.get("ret") == "bool"}
     n = 0
     for key, b in sorted(facts.bodies("chalk_engine").items()):
         if not (key.startswith(MI + "::") and "{" not in key):
@@ -271,7 +301,7 @@ def run(ck, facts, tier):
         fn = key.split("::")[-1]
         n += may_differ_disjunctive(
             ck, R, "MayInvalidate::" + fn, b.where, th,
-            lambda name: name.startswith("aggregate_") or name == "any",
+            lambda name: name.startswith("aggregate_") or name == "any" or name in mi_methods,
             lambda a: (a.get("k") == "bin" and "%s%s%s" % (var_name(a["l"]) or "?", "!=" if a["op"] == "Ne" else "==", var_name(a["r"]) or "?"))
             or str((a.get("fn") or a.get("res") or a.get("k"))).split("::")[-1])
     ck.floor(R, "component-tests", n, 20)
